@@ -339,7 +339,8 @@ func (t *Table) ToCSV(o *csv.Writer, startRow int, warnings io.Writer) (rowCount
 		// Construct a spreadsheet-style cell label.
 		colName := make([]byte, 10)
 		colNamePos := len(colName)
-		for x := len(row); x > 0; {
+		for x := len(row) + 1; x > 0; {
+			x-- // bijective base 26: A..Z, AA..AZ, BA..
 			colNamePos--
 			colName[colNamePos] = 'A' + byte(x%26)
 			x /= 26
